@@ -1,7 +1,7 @@
 """C13 oracle: checks the history recorded by harness/dag.cpp (one scenario = the records between 'B' and 'Z').
 
 The history is a totally ordered list of records: driver operations (Q ... R/X, with the context that performed them), skipped
-operations (K), start signals (s = on_this_start, S = class-wide on_start, both with a snapshot of every activity's get_state()),
+operations (K), livelock (L), start signals (s = on_this_start, S = class-wide on_start, both with a snapshot of every activity's get_state()),
 completion signals (c / C), vetoes (v), structure of a loaded DAG (G) and final states (F).
 
 The oracle replays the *operations* on a small model of the workflow (which edges are declared, which resources are set, which
@@ -63,6 +63,7 @@ class Result:
         self.stats = {}
         self.nontrivial = False
         self.fully_checked = True
+        self.all_finished = False
 
     def vio(self, key, what):
         self.violations.append((key, what))
@@ -97,6 +98,7 @@ def check(lines, expected_edges=None, mode=None):
     order = []
     stacks = {}
     failed = False
+    livelock = False
     loader_edges = set()
     base = 0.0
 
@@ -243,6 +245,12 @@ def check(lines, expected_edges=None, mode=None):
                             s.start_req = (seq, clock)         # release_dependencies() asks the successor to start
                         if not s.live:
                             s.last_start_req = (seq, clock)
+        elif t == "L":
+            a = acts.get(f[2])
+            livelock = True
+            res.vio("C13:livelock:repeated-veto:%s" % (a.kind if a else "?"),
+                    "the simulation stops progressing at %s: %s is vetoed again and again (100000 times in a row) at that date; nothing "
+                    "else can run, so no activity ever finishes" % (f[1], f[2]))
         elif t == "F":
             a = acts.get(f[1])
             if a is not None:
@@ -298,7 +306,10 @@ def check(lines, expected_edges=None, mode=None):
             if strict:
                 res.count("start_date.checked_equal_latest_pred_finish")
                 if abs(ts - Lrel) > EPS:
-                    res.vio("C13:start-date-not-latest-pred-finish:%s" % a.kind,
+                    cls = a.kind
+                    if a.kind == "C" and a.amount == 0 and a.start_req_before_assign:
+                        cls = "zero-byte-comm-started-before-assignment"     # same cause as the 'never-starts' class (something retried start())
+                    res.vio("C13:start-date-not-latest-pred-finish:%s" % cls,
                             "%s is assigned at %.17g, its predecessors finish at %s (latest %.17g) but it starts at %.17g" %
                             (a.id, a.assigned_at[1], {p: c for p, (_, c) in sorted(preds.items())}, Lrel, ts))
                 elif ts == Lrel:
@@ -319,7 +330,7 @@ def check(lines, expected_edges=None, mode=None):
     if incomplete:
         res.count("scenario.premise_incomplete")       # some activity was never assigned / never asked to start: R3 says nothing
     stuck_roots = []
-    if not failed:
+    if not failed and not livelock:
         blocked = set(a.id for a in incomplete)
         # activities that cannot be expected to run because something upstream is not expected to / did not run
         for a in acts.values():
@@ -356,8 +367,9 @@ def check(lines, expected_edges=None, mode=None):
                             (a.id, a.first_start[1], a.final and a.final[0]))
         if not stuck_roots and not incomplete:
             res.count("scenario.all_finished_checked")
+    res.all_finished = len(done) == len(acts) and not livelock
     res.count("activities", len(acts))
     res.count("activities.finished", len(done))
-    if stuck_roots or failed:
+    if stuck_roots or failed or livelock:
         res.fully_checked = False
     return res
